@@ -85,6 +85,54 @@ def _body_wo_doc(fn: ast.FunctionDef) -> List[ast.stmt]:
     return b
 
 
+def _is_bare_return(s: ast.stmt) -> bool:
+    return isinstance(s, ast.Return) and (s.value is None or (isinstance(s.value, ast.Constant) and s.value.value is None))
+
+
+def _has_return(stmts: List[ast.stmt]) -> bool:
+    return any(isinstance(x, ast.Return) for s in stmts for x in ast.walk(s))
+
+
+def _eliminate_bare_returns(stmts: List[ast.stmt]) -> Optional[List[ast.stmt]]:
+    """rewrite guard clauses into if/else so that the block has no `return`; None if a return sits inside a loop/with/try"""
+    out: List[ast.stmt] = []
+    for i, s in enumerate(stmts):
+        if _is_bare_return(s):
+            return out
+        if isinstance(s, ast.If) and (_has_return(s.body) or _has_return(s.orelse)):
+            rest = _eliminate_bare_returns(stmts[i + 1:])
+            body = _eliminate_bare_returns(s.body)
+            orelse = _eliminate_bare_returns(s.orelse)
+            if rest is None or body is None or orelse is None:
+                return None
+            body_ret = bool(s.body) and _ends_in_return(s.body)
+            else_ret = bool(s.orelse) and _ends_in_return(s.orelse)
+            if body_ret and not else_ret:
+                orelse = orelse + rest
+            elif else_ret and not body_ret:
+                body = body + rest
+            elif not body_ret and not else_ret:
+                return None        # return nested deeper than the branch end
+            new = ast.copy_location(ast.If(test=s.test, body=body or [ast.copy_location(ast.Pass(), s)], orelse=orelse), s)
+            out.append(new)
+            return out
+        if _has_return([s]):
+            return None
+        out.append(s)
+    return out
+
+
+def _ends_in_return(stmts: List[ast.stmt]) -> bool:
+    if not stmts:
+        return False
+    last = stmts[-1]
+    if _is_bare_return(last):
+        return True
+    if isinstance(last, ast.If):
+        return _ends_in_return(last.body) and _ends_in_return(last.orelse)
+    return False
+
+
 class Inliner:
     def __init__(self, repo):
         self.repo = repo
@@ -192,6 +240,12 @@ class Inliner:
             return pre + out
         orig_body = _body_wo_doc(helper)
         last_is_ret = bool(orig_body) and isinstance(orig_body[-1], ast.Return)
+        if mode == "expr" and all(r.value is None or (isinstance(r.value, ast.Constant) and r.value.value is None) for r in rets) \
+                and any(not (last_is_ret and r is orig_body[-1]) for r in rets):
+            # guard clauses (`if c: …; return`) -> if/else nesting, so that no early return is left
+            flat = _eliminate_bare_returns([copy.deepcopy(x) for x in orig_body])
+            if flat is not None:
+                return (pre + [tr.visit(x) for x in flat]) or [ast.copy_location(ast.Pass(), call)]
         if mode == "expr":
             if any(r.value is not None and not (isinstance(r.value, ast.Constant) and r.value.value is None) for r in rets):
                 return None
@@ -247,6 +301,30 @@ class Inliner:
                     self.inlined.append((fi.qualname, ast.unparse(call.func)))
                     out += self.rewrite_block(repl, fi, depth + 1)
                     continue
+            # a multi-statement helper called inside a larger expression of a simple statement: hoist it into a
+            # temporary first (only when it is the statement's single call, so evaluation order is untouched)
+            if depth < MAX_DEPTH and isinstance(s, (ast.Return, ast.Assign, ast.AnnAssign, ast.AugAssign, ast.Expr)):
+                val = getattr(s, "value", None)
+                if val is not None and not isinstance(val, ast.Call):
+                    calls = [x for x in ast.walk(val) if isinstance(x, ast.Call)]
+                    if len(calls) == 1 and all(_is_simple(a) for a in calls[0].args) and all(_is_simple(k.value) for k in calls[0].keywords):
+                        h = self.resolve(calls[0], fi)
+                        if h is not None and self.expr_inline(h, calls[0]) is None:
+                            self.counter += 1
+                            tmp = f"hoisted__h{self.counter}"
+                            pre_asg = ast.copy_location(ast.Assign(targets=[ast.Name(id=tmp, ctx=ast.Store())], value=calls[0]), s)
+                            repl2 = self.splice(h, calls[0], "assign", ast.Name(id=tmp, ctx=ast.Store()))
+                            if repl2 is not None:
+                                class _H(ast.NodeTransformer):
+                                    def visit_Call(self, n):
+                                        if n is calls[0]:
+                                            return ast.copy_location(ast.Name(id=tmp, ctx=ast.Load()), n)
+                                        return self.generic_visit(n)
+                                s.value = _H().visit(val)
+                                self.inlined.append((fi.qualname, ast.unparse(calls[0].func)))
+                                out += self.rewrite_block(repl2, fi, depth + 1)
+                                out.append(s)
+                                continue
             # nested blocks
             for fld in ("body", "orelse", "finalbody"):
                 sub = getattr(s, fld, None)
